@@ -56,3 +56,5 @@ def run(ctx, facts):
         C09.dens_rules(ctx, facts, prefix)
         C09.bookkeeping(ctx, facts, prefix)
         C09.empty_guard(ctx, facts, prefix)
+    ctx.rule("REINIT", C09.RULES["REINIT"])
+    C13.require_verified_reset(ctx, facts, [C13.OD, C13.RD], "REINIT")
